@@ -31,7 +31,8 @@ pub fn material(t: &Templates, seed: u64) -> Material {
         ("tab".to_string(), "bo\tris".to_string()),
         ("empty".to_string(), "".to_string()),
         ("n128".to_string(), "\u{e9}".repeat(64)),
-        ("n129".to_string(), format!("{}x", "\u{e9}".repeat(64))),
+        // 129 bytes, and byte offset 128 (the limit) falls INSIDE a two-byte character
+        ("n129".to_string(), format!("x{}", "\u{e9}".repeat(64))),
     ];
     Material { pubs, privs: vec![k1], names }
 }
@@ -251,6 +252,35 @@ pub fn run_lock(t: &Templates, seed: u64, scn: &Value) -> Value {
     let pw = unhex(jstr_or(scn, "password_hex", "7077"));
     let spec = String::from_utf8(t.must("locked_key", &Env::new().b("sk", &sk).b("password", &pw).b("salt", &salt))).unwrap();
     let mut ev = json!({"ev":"lock","id":scn.get("id").cloned().unwrap_or(json!("")),"kind":kind,"res":"err","same":false});
+    // "zero_tail": a conforming locked key whose 84-byte blob ends in kz bytes 0x00, presented WITHOUT that tail (a string of
+    // another length, which a decoder that pads its buffer with zeros would complete again).  Private keys are tried until
+    // the tag comes out with such a tail (the derived key is computed once, by the specification's terms).
+    let (sk, spec, short_tail) = if kind == "zero_tail" {
+        let kz = ju64(scn, "kz") as usize;
+        let key = t.must("lock_kdf", &Env::new().b("password", &pw).b("salt", &salt));
+        let mut magic_salt = ct_codecs::Base64::decode_to_vec(&spec, None).unwrap();
+        magic_salt.truncate(36);
+        let aad = magic_salt[..4].to_vec();
+        let mut found = None;
+        let mut cand = [0u8; 32];
+        cand.copy_from_slice(&sk);
+        for ctr in 0u64..(1u64 << 26) {
+            cand[..8].copy_from_slice(&ctr.to_le_bytes());
+            let ct = kestrel_crypto::chapoly_encrypt_ietf(&key, &[0u8; 12], &cand, &aad);
+            if ct[ct.len() - kz..].iter().all(|b| *b == 0) {
+                found = Some(cand);
+                break;
+            }
+        }
+        let sk2 = found.expect("zero tail search");
+        // the string itself comes from the specification's term
+        let s2 = String::from_utf8(t.must("locked_key_under", &Env::new().b("key", &key).b("sk", &sk2).b("salt", &salt))).unwrap();
+        let blob = ct_codecs::Base64::decode_to_vec(&s2, None).unwrap();
+        assert!(blob.len() == 84 && blob[84 - kz..].iter().all(|b| *b == 0), "zero tail construction");
+        (sk2, s2, Some(blob[..84 - kz].to_vec()))
+    } else {
+        (sk, spec, None)
+    };
     match kind {
         "lock" => {
             let got = catch_unwind(AssertUnwindSafe(|| Keyring::lock_private_key(&PrivateKey::try_from(&sk[..]).unwrap(), &pw, salt).as_str().to_string()));
@@ -281,6 +311,18 @@ pub fn run_lock(t: &Templates, seed: u64, scn: &Value) -> Value {
                     let mut b2 = blob.clone();
                     b2.resize(n, 0x41);
                     s = Base64::encode_to_string(&b2).unwrap();
+                }
+                "zero_tail" => {
+                    let short = short_tail.clone().unwrap();
+                    s = match ju64_or(scn, "form", 0) {
+                        0 => Base64::encode_to_string(&short).unwrap(),
+                        1 => Base64::encode_to_string(&short).unwrap().trim_end_matches('=').to_string(),
+                        // the whole conforming string: must unlock (the control that the construction is right)
+                        _ => {
+                            ev["kind"] = json!("unlock_good");
+                            spec.clone()
+                        }
+                    };
                 }
                 "alphabet" => {
                     s = match ju64(scn, "n") {
